@@ -10,7 +10,7 @@ RULE = ("Cases: a phase series (2-12 cycles of unequal length; monotone 'good' c
         "Cycles(phase, use_cache=False): compute_cycle_metric(name, values, func in {mean,max,sum,len,first,range}, mode in "
         "{cycle, augmented}), add_cycle_metric (right and wrong length), compute_cycle_timings, pick_cycle_subset with 1-3 "
         "condition strings over existing metrics using all six comparators and int / negative / decimal / exponent "
-        "literals, compute_chain_timings, re-picking the previous conditions verbatim (after metrics may have been overwritten), get_metric_dataframe(all | subset=True | conditions). Oracle: a reference model "
+        "literals, compute_chain_timings, compute_chain_metric(name, values, func), re-picking the previous conditions verbatim (after metrics may have been overwritten), get_metric_dataframe(all | subset=True | conditions). Oracle: a reference model "
         "(plain lists on the independently recomputed wrap partition) checked after every step: every metric has one "
         "entry per cycle and equals func on that cycle's samples (augmented: the cycle plus the run of samples back to the "
         "closest trough, i.e. phase >= 1.5pi, on its left; missing for the first cycle); get_matching_cycles == the "
@@ -55,6 +55,7 @@ OPS = st.one_of(
     st.tuples(st.just('subset'), st.lists(st.tuples(st.integers(0, 7), st.sampled_from(['<', '<=', '>', '>=', '!=']), st.sampled_from(LITERALS[17:])),
                                            min_size=1, max_size=1)),
     st.tuples(st.just('chain_timings')),
+    st.tuples(st.just('chain_metric'), st.integers(0, 2), st.integers(0, 2**31 - 1), st.sampled_from(['mean', 'max', 'sum', 'len', 'first'])),
     st.tuples(st.just('repick')),          # the previous selection's condition strings again, verbatim
     st.tuples(st.just('repick')),
     st.tuples(st.just('dataframe'), st.sampled_from(['all', 'subset', 'conditions']),
@@ -345,6 +346,38 @@ def oracle(case, rec):
                               'chain_len_cycles': lc.tolist(), 'chain_position': pos.tolist()})
                 state['after_subset_metrics'] += 1
                 rec.cls('op chain_timings')
+        elif kind == 'chain_metric':
+            _, slot, seed, fname = op
+            name = 'c%d' % slot
+            vals = np.round(np.random.default_rng(seed).standard_normal(N) * 5, 3)
+            func = FUNCS[fname]
+            res = both('compute_chain_metric', lambda C: C.compute_chain_metric(name, vals.copy(), func))
+            if subset is None:
+                if res['on'][1] is None:
+                    raise Violation('C15/compute_chain_metric/no-subset-accepted', '')
+                if not res['on'][1].startswith('ValueError'):
+                    raise Violation('C15/compute_chain_metric/no-subset-raises-other', res['on'][1])
+                rec.cls('op chain_metric/rejected-before-subset')
+            else:
+                if res['on'][1] is not None:
+                    raise Violation('C15/compute_chain_metric/raises', res['on'][1])
+                chosen = np.where(subset)[0]
+                exp = np.full(K, np.nan)
+                runs = []
+                for c in chosen:
+                    if runs and runs[-1][-1] == c - 1:
+                        runs[-1].append(c)
+                    else:
+                        runs.append([c])
+                for r in runs:
+                    v = float(func(np.concatenate([vals[segs[q][0]:segs[q][1]] for q in r])))
+                    for c in r:
+                        exp[c] = v
+                touched(name)
+                model[name] = exp.tolist()
+                undecided.discard(name)
+                state['after_subset_metrics'] += 1
+                rec.cls('op chain_metric')
         elif kind == 'dataframe':
             _, which, cond = op
             if which == 'subset' and (subset is None or state['dirty']):
@@ -375,6 +408,6 @@ def oracle(case, rec):
 
 
 CLAUSES = [
-    Clause('C15.machine', oracle, strategy=case_strategy, quick=1600, thorough=10000, shards=(16, 16),
+    Clause('C15.machine', oracle, strategy=case_strategy, quick=3200, thorough=10000, shards=(16, 16),
            nt_rule='a subset with >= 2 chains and >= 1 metric computed after it'),
 ]
